@@ -52,6 +52,11 @@ structure Coll (K : Type) where
 def Coll.value (d : Coll K) (x : K) : K :=
   (d.c0.getD 0) + (d.cp.getD 0) * x + (d.cm.getD 0) / x
 
+/-- every coefficient present in the dictionary is non-zero (`collect` has no key with a zero coefficient); the
+    realisations invert some of them (`C(1/a)`, `R(1/a)`, `L(1/a)`) -/
+def Coll.EntriesNonzero (d : Coll K) : Prop :=
+  (∀ v, d.c0 = some v → v ≠ 0) ∧ (∀ v, d.cp = some v → v ≠ 0) ∧ (∀ v, d.cm = some v → v ≠ 0)
+
 def optNet (f : K → Net K) : Option K → Option (Net K)
   | none => none
   | some a => some (f a)
